@@ -225,6 +225,9 @@ theorem tokensPrefixOk_cons (t : Token) (ts : List Token) :
     tokensPrefixOk (t :: ts) = (t.prefixOk && tokensPrefixOk ts) := by
   simp [tokensPrefixOk]
 
+theorem StrSpan.bareColon_zero (t : Str) : (⟨t, 0⟩ : StrSpan).bareColon = false := by
+  simp [StrSpan.bareColon]
+
 /-- A prefix that is not empty, or that stands at offset 0, passes. -/
 theorem StrSpan.bareColon_false_of_start {s : StrSpan} (h : s.start = 0) : s.bareColon = false := by
   simp [StrSpan.bareColon, h]
